@@ -18,12 +18,14 @@ an exception / refusal is counted (`refused`), never a violation.
 """
 import sys, os, re, ast, io, json, math, time, random, signal, contextlib, itertools, collections
 from fractions import Fraction
-from concurrent.futures import ThreadPoolExecutor
+from concurrent.futures import ThreadPoolExecutor, ProcessPoolExecutor, as_completed
 import multiprocessing as mp
 from harness.core import Check, tier_seed, assert_repo, main_guard
 from harness.tlc import run_tlc, TLCError
 
 NONE = 1000000
+TIMEOUT_S = 30            # per API call
+MEM_LIMIT = 3 * 2 ** 30   # address space of a worker process
 
 # ------------------------------------------------------------------------------------------
 # the TLC configurations: name -> (use, quick stride, thorough partitions)
@@ -89,7 +91,7 @@ def dec(q):
 
 
 def numtxt(q, e, style):
-    if e:
+    if e and q != 0:
         return dec(q) + "e%d" % e
     if style == "frac" and q.denominator != 1:
         return "%d/%d" % (q.numerator, q.denominator)
@@ -155,17 +157,30 @@ def systxt(prog, names, style):
 
 
 def shape(ln):
-    if ln["f"] == "lin":
-        return "lin"
+    """name of the syntactic form of a line (for violation keys); '~0' = the other side is the constant 0"""
     hasv = any(r[0] != 0 for r in ln["v"])
     hasw = any(r[0] != 0 for r in ln["w"])
+    if ln["f"] == "lin":
+        if all(frac(a) == frac(b) for a, b in zip(ln["v"], ln["w"])):
+            return "const"                     # no variable left: 0 op c
+        return "lin"
+    zero = "~0" if (not hasw and ln["d"][0] == 0) else ""
     if ln["f"] == "mul":
-        return "a*xi*xj"
+        return "a*xi*xj" + zero
     if hasv and ln["c"][0] == 0:
-        return "a*xi/xj"
+        return "a*xi/xj" + zero
     if hasv:
-        return "(a*xi+b)/xj"
-    return "k/xj~a*xi+b" if hasw else "k/xj"
+        return "(a*xi+b)/xj" + zero
+    return "k/xj~a*xi+b" if hasw else "k/xj" + zero
+
+
+def opposite_pair(prog):
+    """two lines that differ only in the comparator, one being the flip of the other"""
+    if len(prog) != 2:
+        return False
+    a, b = prog
+    flips = {"<": ">", ">": "<", "<=": ">=", ">=": "<="}
+    return all(a[k] == b[k] for k in ("f", "j", "v", "c", "w", "d", "e")) and flips.get(a["op"]) == b["op"]
 
 
 # ------------------------------------------------------------------------------------------
@@ -309,7 +324,7 @@ def satisfied(cases, names, hdr, und):
 
 # ------------------------------------------------------------------------------------------
 # worker side: call mystic, evaluate what it returned
-class _Timeout(Exception):
+class _Timeout(BaseException):          # not an Exception: mystic's `except Exception` must not swallow it
     pass
 
 
@@ -330,16 +345,23 @@ def quiet():
 def call(fn, *a, **k):
     """-> ('ok', value) | ('refused', reason)"""
     signal.signal(signal.SIGALRM, _alarm)
-    signal.alarm(60)
     try:
-        with quiet():
-            return "ok", fn(*a, **k)
+        # repeating timer: mystic.solve has a bare `except:` that can swallow the first alarm
+        signal.setitimer(signal.ITIMER_REAL, TIMEOUT_S, 5)
+        try:
+            with quiet():
+                v = fn(*a, **k)
+        finally:
+            signal.setitimer(signal.ITIMER_REAL, 0)
+        return "ok", v
     except _Timeout:
         return "refused", "timeout"
+    except MemoryError:
+        import gc
+        gc.collect()
+        return "refused", "MemoryError"
     except Exception as ex:
         return "refused", type(ex).__name__
-    finally:
-        signal.alarm(0)
 
 
 def as_cases(res):
@@ -461,7 +483,10 @@ def run_chunk(arg):
 
 
 def _init_worker():
-    sys.setrecursionlimit(10000)
+    # mystic can fall into an n!-permutation search (>= 10 variables, unsolvable line): cap the address space so
+    # that this ends as a MemoryError (a refusal) instead of the kernel killing the worker
+    import resource
+    resource.setrlimit(resource.RLIMIT_AS, (MEM_LIMIT, MEM_LIMIT))
     import warnings
     warnings.simplefilter("ignore")
     import mystic.symbolic   # noqa
@@ -508,7 +533,8 @@ def make_jobs(name, hdr, states, seed, thorough):
     jobs = []
     combos = [(s, st) for s in range(len(SCHEMES)) for st in range(len(STYLES))]
     for i, s in enumerate(states):
-        base = {"cfg": name, "use": use, "sol": s["sol"], "und": s["und"], "rw": s["rw"], "seed": seed * 1000003 + i}
+        base = {"cfg": name, "use": use, "sol": s["sol"], "und": s["und"], "crit": s.get("crit") or [], "rw": s["rw"],
+                "seed": seed * 1000003 + i}
         if use == "simplify":
             picks = [combos[(i * 7 + seed) % len(combos)]]
             if thorough and i % 3 == 0:
@@ -533,7 +559,11 @@ def make_jobs(name, hdr, states, seed, thorough):
             tag, vararg, nm = POS_SCHEMES[(i + seed) % len(POS_SCHEMES)]
             vararg = vararg[:nv] if isinstance(vararg, list) else vararg
             conv = ["int", "float", "ndarray", "flat"][(i // len(POS_SCHEMES)) % 4]
-            jobs.append(dict(base, scheme=tag, vars=vararg, names=nm[:nv], mat=s["p"], conv=conv, prog=s["p"],
+            m = s["p"]
+            lines = [{"f": "lin", "j": 0, "op": op, "e": 0, "v": [[x, 1] for x in row], "c": [0, 1],
+                      "w": [[0, 1]] * nv, "d": [rhs, 1]}
+                     for rows, rhss, op in ((m["G"], m["h"], "<="), (m["A"], m["b"], "==")) for row, rhs in zip(rows, rhss)]
+            jobs.append(dict(base, scheme=tag, vars=vararg, names=nm[:nv], mat=s["p"], conv=conv, prog=s["p"], lines=lines,
                              pipe=(i % 5 == 0), text="A=%s b=%s G=%s h=%s" % (s["p"]["A"], s["p"]["b"], s["p"]["G"], s["p"]["h"])))
         elif use == "bounds":
             tag, vararg, nm = POS_SCHEMES[(i + seed) % len(POS_SCHEMES)]
@@ -544,12 +574,27 @@ def make_jobs(name, hdr, states, seed, thorough):
     return jobs
 
 
+_DEGENERATE = ("const", "k/xj~0", "a*xi*xj~0")      # listed first in a key (prefix matching of known findings)
+
+
 def vkey(job, r):
+    """stable class name of a disagreement:  api : what : syntactic form(s) of the input lines
+    what = zero-case-dropped  solutions are lost, only inside the critical set the spec printed (where a factor
+                              that simplify multiplies / divides by vanishes), and nothing is gained
+           missing / extra / missing+extra   anything else
+    forms: distinct line forms, degenerate ones (no variable left, other side 0) first; 'opposite-pair' in front when
+    the two lines differ only by a flipped comparator"""
     what = "missing" if r["missing"] and not r["extra"] else "extra" if r["extra"] and not r["missing"] else "missing+extra"
     api = r["api"]
-    if job["use"] == "simplify":
-        form = "+".join(shape(ln) for ln in job["prog"])
-        return "%s:%s:%s" % (api.split("(")[0], what, form)
+    if api.startswith("simplify"):
+        lines = job["prog"] if job["use"] == "simplify" else job["lines"]
+        if what == "missing" and set(r["missing_all_ids"]) <= set(job.get("crit") or ()):
+            what = "zero-case-dropped"
+        shapes = sorted(set(shape(ln) for ln in lines), key=lambda x: (x not in _DEGENERATE, x))
+        form = "+".join(shapes)
+        if opposite_pair(lines):
+            form = "opposite-pair:" + form
+        return "simplify:%s:%s" % (what, form)
     return "%s:%s" % (api, what)
 
 
@@ -564,10 +609,11 @@ def new_check(a):
                       "distinct (configuration, input text, variables argument, API)")
 
 
-def replay(ck, a, tl, only=None, corrupt=False, pool=None):
+def replay(ck, a, tl, only=None, corrupt=False):
     """bind the emitted programs to the implementation; returns statistics"""
     thorough = a.tier == "thorough"
     stats = collections.Counter()
+    violated = set()
     refused = collections.Counter()
     rewrites = collections.Counter()
     schemes = collections.Counter()
@@ -591,15 +637,15 @@ def replay(ck, a, tl, only=None, corrupt=False, pool=None):
                 if 0 < len(j["sol"]) < hdr["npts"] - len(j["und"]):
                     j["sol"] = j["sol"][1:]
                     break
-        slim = [{k: v for k, v in j.items() if k not in ("prog", "rw", "cfg", "scheme")} for j in jobs]
+        slim = [{k: v for k, v in j.items() if k not in ("prog", "rw", "cfg", "scheme", "crit", "lines")} for j in jobs]
         n = 25 if CONFIGS[name][0] == "simplify" else 60
         chunks.extend((hdr, slim[i:i + n]) for i in range(0, len(slim), n))
     random.Random(a.seed).shuffle(chunks)
-    own = pool is None
-    if own:
-        pool = mp.get_context("fork").Pool(max(1, a.jobs), initializer=_init_worker)
+    pool = ProcessPoolExecutor(max_workers=max(1, a.jobs), mp_context=mp.get_context("fork"), initializer=_init_worker)
     try:
-        for res in pool.imap_unordered(run_chunk, chunks):
+        futures = [pool.submit(run_chunk, ch) for ch in chunks]
+        for fut in as_completed(futures):
+            res = fut.result()          # BrokenProcessPool (a worker died) -> machinery failure, never a hang
             for jid_, rs, dt in res:
                 job = alljobs[jid_]
                 cpu[job["cfg"]] += dt
@@ -614,7 +660,6 @@ def replay(ck, a, tl, only=None, corrupt=False, pool=None):
                         continue
                     if r["st"] == "unparsed":
                         refused["%s:unparsed-return:%s" % (api, job["cfg"])] += 1
-                        stats["unparsed_sample"] = stats["unparsed_sample"] or 0
                         ck.extra.setdefault("unparsed_samples", [])
                         if len(ck.extra["unparsed_samples"]) < 5:
                             ck.extra["unparsed_samples"].append({"input": job["text"], "returned": r["returned"], "why": r["why"]})
@@ -622,6 +667,7 @@ def replay(ck, a, tl, only=None, corrupt=False, pool=None):
                         continue
                     ck.case(nontrivial=r["nontrivial"], key=(job["cfg"], job["text"], str(job["vars"]), api))
                     if r["st"] == "viol":
+                        violated.add((job["cfg"], job["text"], str(job["vars"]), api))
                         key = vkey(job, r)
                         detail = {"api": api, "input": job["text"], "variables": job["vars"], "random_seed": job["seed"],
                                   "config": job["cfg"], "rewrites": job["rw"], "scheme": job["scheme"],
@@ -640,10 +686,8 @@ def replay(ck, a, tl, only=None, corrupt=False, pool=None):
                                    "undefined_points": len(job["und"])})
             ck.trace(len(res))
     finally:
-        if own:
-            pool.terminate()
-            pool.join()
-    return {"stats": stats, "refused": refused, "rewrites": rewrites, "schemes": schemes, "cpu": cpu, "jobs": len(alljobs)}
+        pool.shutdown(wait=True, cancel_futures=True)
+    return {"stats": stats, "violated": violated, "refused": refused, "rewrites": rewrites, "schemes": schemes, "cpu": cpu, "jobs": len(alljobs)}
 
 
 def design_runs(ck, a):
@@ -699,7 +743,7 @@ def explore(ck, a):
         "arithmetic is exact (fractions.Fraction)",
         "a returned case holds at a point iff every line of it is defined there and true; points where the INPUT has a "
         "zero denominator are excluded on both sides; None returned by simplify is read as 'no solution'",
-        "an exception, a timeout (60 s) or a non-text result is a refusal (counted in coverage.refused), not a violation",
+        "an exception, a timeout (30 s), memory exhaustion (3 GB) or a non-text result is a refusal (counted in coverage.refused), not a violation",
         "very large / small coefficients are covered as a uniform factor 10^+-8 on all numbers of a line, not mixed "
         "magnitudes within one line; coefficients are dyadic rationals (and -3/2) so that sympy's float arithmetic is exact "
         "up to the stated literal snapping",
@@ -784,26 +828,38 @@ def selftest(a):
         ("one grid point removed from an expected solution set printed by TLC", None, {"bounds", "linsym"}),
     ]
     missed = 0
-    for name, mut, only in mutants:
+    from harness.tlc import scratch_dir
+    import shutil
+    scratch = scratch_dir()
+
+    def run(mut, only, corrupt=False):
         undo = mut() if mut else (lambda: None)
         ck = new_check(a)
-        buf = io.StringIO()
+        ck.outdir = scratch          # replay artefacts of mutants are not evidence
         try:
-            with contextlib.redirect_stdout(buf):
-                replay(ck, a, tl, only=only, corrupt=(mut is None))
+            with contextlib.redirect_stdout(io.StringIO()):
+                st = replay(ck, a, tl, only=only, corrupt=corrupt)
         finally:
             undo()
-        classes = sorted(ck.viol_keys)
-        print("SELFTEST %s: %s (%d violations; %s)" % (name, "caught" if ck.violations else "MISSED", ck.violations,
-                                                       ", ".join(classes[:4])))
+        return ck, st["violated"]
+
+    # the unchanged tree first: a mutant counts as caught only for violations the unchanged tree does not have
+    _, base = run(None, None)
+    print("SELFTEST baseline (unchanged tree): %d violated cases" % len(base))
+    for name, mut, only in mutants:
+        ck, viol = run(mut, only, corrupt=(mut is None))
+        new = viol - base
+        classes = sorted(set(k for k in ck.viol_keys))
+        print("SELFTEST %s: %s (%d cases violated that hold on the unchanged tree; classes seen: %s)" % (
+            name, "caught" if new else "MISSED", len(new), ", ".join(classes[:4])))
         sys.stdout.flush()
-        missed += 0 if ck.violations else 1
+        missed += 0 if new else 1
     # the spec's own negative control
     rb = run_tlc("sym/MC_Sym", cfg="MC_SymBad.cfg", workers=1, env={"STRIDE": 8, "OFFSET": 0}, timeout=3000)
     ok = rb.violated == "SolPreserved"
     print("SELFTEST spec negative control (scale by a negative constant without flipping): %s" % ("caught" if ok else "MISSED"))
     missed += 0 if ok else 1
-    # remove replay artefacts written by the mutants
+    shutil.rmtree(scratch, ignore_errors=True)
     return 1 if missed else 0
 
 
